@@ -566,6 +566,25 @@ func relabel(buf []byte, g *rng) []byte {
 	return out
 }
 
+// opRawRead: exactly one read of the reader, whatever its length: nothing at all (the runtime reports
+// io.EOF), fewer bytes than one header (short read) or a regular datagram.
+func (s *session) opRawRead(r *rec, buf []byte) bool {
+	marks := s.marks()
+	if len(buf) == 0 {
+		if _, err := unix.Write(s.injectFd, buf); err != nil { // a zero-length datagram
+			check(fmt.Errorf("inject write: %w", err))
+		}
+	}
+	evs, errs, ok := s.inject(buf, 10*time.Second)
+	ans := fmtOut("nil", evs, errs) + " | " + stateStr(s.w)
+	if !ok {
+		ans += " | BARRIER-TIMEOUT"
+	}
+	op := fmt.Sprintf("rawread %s marks=%s", hx(string(buf)), marks)
+	r.emit("rawread", op, ans)
+	return ok
+}
+
 func recsBytes(recs ...rawRec) []byte {
 	var b []byte
 	for _, x := range recs {
@@ -865,8 +884,13 @@ func runSession(r *rec, g *rng, s *session, u *universe, steps int, mon *os.File
 				}
 			}
 			s.opRemove(r, u.spell(g, u.paths[g.intn(len(u.paths))]))
-		case c < 42:
+		case c < 40:
 			s.opWatchList(r)
+		case c < 42: // a read that returns nothing, or less than one header
+			n := []int{0, 0, 1, 7, 15}[g.intn(5)]
+			if !s.opRawRead(r, make([]byte, n)) {
+				return
+			}
 		case c < 47: // kill a kernel mark behind the library's back (file deleted / replaced)
 			f := u.files[g.intn(len(u.files))]
 			p := filepath.Join(u.root, f)
